@@ -391,13 +391,12 @@ def check_known(ctx, package):
 def run(ctx):
     if getattr(ctx, "replay", None):
         return replay(ctx)
-    failed = ctx.lean_stage(modules_for("C12"))
     # the channel-layout table of the tree under test (src/chanmap.c) goes into the model; its consistency is a theorem (layout_tags_nodup)
     try:
         ctx.set_generated("ChanMap.lean", chanmap.lean_text(build.REPO))
     except Exception as e:          # the table cannot be extracted any more: the Lean stage then runs on the committed one
         ctx.notes["chanmap_extraction_failed"] = repr(e)
-    failed = ctx.lean_stage(["SfProps.C12", "SfProps.C12X", "SfProps.C12Order"])
+    failed = ctx.lean_stage(modules_for("C12"))
     if not os.path.exists(ctx.sfmodel()):
         ctx.violation("lean-stage", "the model driver does not build: %s\n%s" % (", ".join(failed), ctx.notes.get("lean_log_tail", "")), no_input=True)
         raise Violation()
